@@ -35,7 +35,9 @@ NAMES = ["example.org", "a.b.c", "::1", "[::1]", "2001:db8::5", "host:1965", 'qu
          "日本.jp", "eq=sign", "hash#tag", "new\nline", "tab\there", "dot.", "'single'", "sp ace", "", "UPPER.Example", "x" * 200,
          "toml.key = 1", "{inline}", "a,b", "\x7f", "\x01ctl", "null\x00byte",
          "my_host.example", "my-host.example", "myxhost.example", "100%.example", "100x.example", "a%b", "axxb", "_", "%",
-         "upper.example", "EXAMPLE.ORG", "\u00c9.example", "HOST:1965"]
+         "upper.example", "EXAMPLE.ORG", "\u00c9.example", "HOST:1965",
+         # the same visible name in different Unicode normalisation forms (different strings, different hosts)
+         "cafe\u0301.example", "caf\u00e9.example", "\u1112\u1161\u11ab.example", "\ud55c.example", "\u212b.example", "\u00c5.example"]
 
 
 def host_st():
